@@ -79,11 +79,15 @@ def purity_history(seed, n):
         if r < 0.4:
             f, dt = rng.choice(pool16)
             ev16.append({"key": dt * 65536 + f, "cell": cmdrec.dec_cell(16, f, dt), "pos": pos})
+            if pos % 3 == 0:
+                cmdrec.scribble(16, f, dt)
         elif r < 0.8:
             f, mid = rng.choice(pool24)
             keep = []
             ev24.append({"key": f * 64 + (mid + 1), "cell": cmdrec.dec_cell(24, f, 0, get_map(mid), keep), "pos": pos})
             kept.extend((f, mid, o, fo) for o, fo in keep)
+            if pos % 3 == 0:
+                cmdrec.scribble(24, f, 0, get_map(mid))
         else:
             c = rng.choice(ctor_classes)
             for args in ((address.GearShort(rng.randrange(64)),), (address.DeviceShort(rng.randrange(64)),),
